@@ -36,6 +36,9 @@ type inprocTransport struct {
 	// round trip fails and Exceeded is set, so that a client looping without progress terminates.
 	MaxRequests int
 	Exceeded    bool
+	// FailBefore, if set and returning an error, makes the round trip fail before anything is
+	// delivered to the server (connection refused, broken pipe on connect): the server never sees it.
+	FailBefore func(req *http.Request) error
 }
 
 type errReader struct {
@@ -62,6 +65,14 @@ func (t *inprocTransport) RoundTrip(req *http.Request) (*http.Response, error) {
 			req.Body.Close()
 		}
 		return nil, fmt.Errorf("inproc transport: request budget of %d exceeded", t.MaxRequests)
+	}
+	if t.FailBefore != nil {
+		if err := t.FailBefore(req); err != nil {
+			if req.Body != nil {
+				req.Body.Close()
+			}
+			return nil, err
+		}
 	}
 	var body []byte
 	if req.Body != nil {
